@@ -21,7 +21,7 @@ class SiteSpecHooks:
     def call(self, eng, st, name, recv, args, kw, node):
         for site in self.sites:
             f = site['func']
-            if not (name == f or (f.startswith('.') and recv is not None and name == f[1:]) or name.endswith(f) and f.startswith('.')):
+            if not ((not f.startswith('.') and recv is None and name == f) or (f.startswith('.') and recv is not None and name == f[1:])):
                 continue
             a = site['arg']
             val = kw.get(a) if isinstance(a, str) else (args[a] if a < len(args) else None)
@@ -38,3 +38,24 @@ class SiteSpecHooks:
         if self.inner is not None and hasattr(self.inner, 'call'):
             return self.inner.call(eng, st, name, recv, args, kw, node)
         return NotImplemented
+
+    def setitem(self, eng, st, tgt, o, k, val, node):
+        """sites with func='[]=' and container=<variable name>: obligations on the key / value stored."""
+        import ast as _ast
+        for site in self.sites:
+            if site['func'] != '[]=' or not (isinstance(tgt.value, _ast.Name) and tgt.value.id == site['container']):
+                continue
+            t, facts = eng.spec(site['spec'], st, {'__key': k, '__arg': val}, mode='prove')
+            s2 = st.fork()
+            for x in facts:
+                s2.assume(x)
+            eng.oblige(s2, 'site/%s@L%d' % (site['name'], node.lineno), t, kind='store-site')
+            key = 'n_site_' + site['name']
+            st.ghost[key] = st.ghost.get(key, z3.IntVal(0)) + 1
+        return NotImplemented
+
+    def init(self, eng, st):
+        for site in self.sites:
+            st.ghost.setdefault('n_site_' + site['name'], z3.IntVal(0))
+        if self.inner is not None and hasattr(self.inner, 'init'):
+            self.inner.init(eng, st)
